@@ -4,17 +4,17 @@ ORACLES = "stdlib/third-party functions katib merely calls are oracles evaluated
 
 PROPS = {
     "C11": {
-        "prop_files": ["Katib/Props/C11.lean"],
+        "prop_files": ["Katib/Props/C11.lean", "Katib/Props/C11Guards.lean"],
         "n": {"quick": 20000, "thorough": 1000000},
         "rule": "seeded random metric logs (0-200 entries, 5 metric names, float syntaxes, non-numeric texts, equal/out-of-order/"
                 "invalid timestamps) x strategy lists (0-4 names, duplicates); one case in three goes the controller's own way: the real manager client asks an in-process gRPC DB manager metric by metric (objective = first strategy, additional = the rest) and getMetrics runs on what it assembled; a case is non-trivial when both the log and the "
                 "strategy list are non-empty; distinct = distinct op line",
-        "trusted": ["strconv.ParseFloat and time.Parse are oracles (key / ts on the op line); NaN/Inf never generated"],
+        "trusted": ["the go/ast path-condition translator (kvh extract guards / pred / skip; what it is trusted for: DESIGN.md section 2)", "strconv.ParseFloat and time.Parse are oracles (key / ts on the op line); NaN/Inf never generated"],
         "modelled": ["getMetrics (trial_controller_util.go) as Katib.Metrics.getMetrics"],
         "level_text": "Lean theorems (C11_names, C11_summary, C11_interleaving, C11_error_iff, C11_unnamed_ignored) hold for every log and "
-                      "strategy list of the model of getMetrics; the model is tied to the Go function by a differential run on generated logs "
+                      "strategy list of the model of getMetrics; C11_iteration_is_source: one iteration of the model assigns min / max / latest and returns the timestamp error under exactly the path conditions regenerated from the loop body of getMetrics on this run (6 sites); the model is tied to the Go function by a differential run on generated logs "
                       "and the observed Go outputs are judged by the executable property oracle",
-        "level_note": "trusted: Lean kernel; harness/check; ParseFloat and time.Parse as oracles; model is hand-written (tie = sampling)",
+        "level_note": "trusted: Lean kernel; harness/check; ParseFloat and time.Parse as oracles; model is hand-written (tie = sampling, plus the regenerated path conditions of the loop body)",
         "assumptions": ["ParseFloat key is order-isomorphic to the float order (math.Float64bits mapping, +-0 identified)",
                         "a text that parses as a float is never the literal 'unavailable'"],
     },
